@@ -29,6 +29,7 @@ def xptCmd (args : List String) : String :=
       | .err => "ERR"
       | .panic => "PANIC"
     "OVER " ++ show1 65 ++ " " ++ show1 100 ++ " " ++ show1 10
+  | ["rawaddr", m] => if m = "b" ∨ m = "nb" then "RAWADDR data_ok=1 addr_ok=1 reply_ok=1" else "BADARG"
   | ["dead", k] => if k = "chan" ∨ k = "unix" then "DEAD live=OK after=ERR" else "BADARG"
   | [kind, mode, n, count, seed, cap] =>
     match n.toNat?, count.toNat?, seed.toNat?, cap.toNat? with
@@ -59,6 +60,7 @@ def parseXptRx (t : String) : Option C19.Rx :=
 def orcC19 (args : List String) : String :=
   match args with
   | "over" :: "@@" :: obs => if obs.any (· = "PANIC") || obs.length ≠ 4 then "FAIL oversize-panic" else "PASS"
+  | "rawaddr" :: "@@" :: obs => if obs = ["RAWADDR", "data_ok=1", "addr_ok=1", "reply_ok=1"] then "PASS" else "FAIL sender-address"
   | "dead" :: "@@" :: obs => if obs = ["DEAD", "live=OK", "after=ERR"] then "PASS" else "FAIL dead-handle"
   | n :: count :: seed :: cap :: mode :: "@@" :: obs =>
     match n.toNat?, count.toNat?, seed.toNat?, cap.toNat? with
